@@ -26,10 +26,17 @@ def ratPow (old : Bool) (p : Nat) (cps : List (List (Rat × Rat))) : Val :=
   else if p == 0 then errVal .zeroDivision
   else .num (if old then pNormPowOld p cps else pNormPow p cps)
 
+/-- `expm1` from `exp` and `log` (Kahan): accurate to a few ulps for every `x` (core `Float` has no `expm1`) -/
+def expm1F (x : Float) : Float :=
+  let u := Float.exp x
+  if u == 1.0 then x
+  else if u - 1.0 == -1.0 then -1.0
+  else (u - 1.0) * x / Float.log u
+
 /-- the public method at `Float` for real `p` -/
 def floatNorm (p : Float) (cps : List (List (Float × Float))) : Val :=
   match pNormMethod (fun r => Float.pow r (1.0 / p)) (fun x => Float.pow x p)
-      (fun x => Float.pow x (p + 1)) p cps with
+      (fun x => Float.pow x (p + 1)) (fun r => -(expm1F ((p + 1) * Float.log r))) p cps with
   | .ok v => .flt v
   | .error e => errVal e
 
